@@ -468,10 +468,11 @@ func VerifC04_Wide() {
 
 // c04Concrete: a message of the given shape with fixed field values.
 func c04Concrete(msm7 bool, msgType int, satIDs, sigIDs []uint, cellMask uint64) *c04Msg {
-	m := &c04Msg{msm7: msm7, msgType: msgType, satIDs: satIDs, sigIDs: sigIDs, station: 7, timestamp: 1000}
+	m := &c04Msg{msm7: msm7, msgType: msgType, satIDs: satIDs, sigIDs: sigIDs, station: 7, timestamp: 1000,
+		mm: false, iods: 5, sess: 3, clk: 1, ext: 2, smooth: true, smoothIntvl: 6}
 	nsat, nsig := len(satIDs), len(sigIDs)
 	for i := 0; i < nsat; i++ {
-		m.sats = append(m.sats, c04Sat{id: satIDs[i], whole: uint(80 + i), frac: uint(5 + i)})
+		m.sats = append(m.sats, c04Sat{id: satIDs[i], whole: uint(80 + i), frac: uint(5 + i), ext: 9, rate: -7})
 	}
 	k := nsat*nsig - 1
 	for i := 0; i < nsat; i++ {
@@ -480,7 +481,7 @@ func c04Concrete(msm7 bool, msgType int, satIDs, sigIDs []uint, cellMask uint64)
 			row[j] = (cellMask>>uint(k))&1 == 1
 			k--
 			if row[j] {
-				m.sigs = append(m.sigs, c04Sig{sat: uint(i), sigID: sigIDs[j], rng: 3 + i, phase: -2 - j, lock: 1, cnr: 2})
+				m.sigs = append(m.sigs, c04Sig{sat: uint(i), sigID: sigIDs[j], rng: 3 + i, phase: -2 - j, lock: 1, cnr: 2, half: true, rateDelta: -5})
 			}
 		}
 		m.cells = append(m.cells, row)
